@@ -839,9 +839,10 @@ func run(c *lib.Ctx, cs caseT) {
 		mkTable(w, "t", cs.NParts, cs.Keyless, cname)
 	}
 	w.twin = true
+	hasUnique := false
 	for _, st := range cs.Steps {
 		if st.Kind == "create" && strings.Contains(st.SQL, "UNIQUE") {
-			w.twin = false
+			hasUnique = true
 		}
 	}
 	if w.twin {
@@ -855,7 +856,10 @@ func run(c *lib.Ctx, cs caseT) {
 			mkTable(w, "u", cs.NParts, cs.Keyless, cname)
 		}
 		c.Count("history_with_twin")
-	} else {
+	}
+	if hasUnique {
+		// the index-free twin cannot reject or replace on a unique key: statements t rejects are not sent to it, and the
+		// row changes of REPLACE / ON DUPLICATE KEY UPDATE (which may delete rows through a unique key) are mirrored
 		c.Count("history_with_unique_index")
 	}
 	c.Count(fmt.Sprintf("partitions_%d", cs.NParts))
@@ -932,6 +936,7 @@ func run(c *lib.Ctx, cs caseT) {
 		res := w.s.Query(q)
 		after := w.dump()
 		var op string
+		var stepDels, stepAdds []sql.Row
 		panicked := res.Panic != ""
 		switch {
 		case panicked:
@@ -1016,6 +1021,7 @@ func run(c *lib.Ctx, cs caseT) {
 		default:
 			b, a := rawRows(before), rawRows(after)
 			dels, adds := bagDiff(b, a), bagDiff(a, b)
+			stepDels, stepAdds = dels, adds
 			for _, r := range adds {
 				noteHP(r)
 			}
@@ -1038,9 +1044,30 @@ func run(c *lib.Ctx, cs caseT) {
 		}
 		// twin
 		if w.twin && res.Err == nil && (st.Kind == "dml" || st.Kind == "truncate") {
-			r2 := w.s.Query(strings.ReplaceAll(st.SQL, "%T", "u"))
-			if r2.Err != nil {
-				addFail("twin-statement-outcome-differs", fmt.Sprintf("step %d %q succeeded on t but on the index-free twin: %v", si, q, r2.Err))
+			if hasUnique && (strings.HasPrefix(st.SQL, "REPLACE") || strings.Contains(st.SQL, "ON DUPLICATE KEY")) {
+				for _, r := range stepDels {
+					var q2 string
+					if cs.Keyless {
+						q2 = fmt.Sprintf("DELETE FROM u WHERE pk <=> %s AND a <=> %s AND b <=> %s AND c <=> %s LIMIT 1", lit(r[0]), lit(r[1]), lit(r[2]), lit(r[3]))
+					} else {
+						q2 = fmt.Sprintf("DELETE FROM u WHERE pk = %s", lit(r[0]))
+					}
+					if r2 := w.s.Query(q2); r2.Err != nil {
+						addFail("twin-statement-outcome-differs", fmt.Sprintf("step %d mirroring %q on the twin: %v", si, q2, r2.Err))
+					}
+				}
+				for _, r := range stepAdds {
+					q2 := fmt.Sprintf("INSERT INTO u VALUES (%s, %s, %s, %s)", lit(r[0]), lit(r[1]), lit(r[2]), lit(r[3]))
+					if r2 := w.s.Query(q2); r2.Err != nil {
+						addFail("twin-statement-outcome-differs", fmt.Sprintf("step %d mirroring %q on the twin: %v", si, q2, r2.Err))
+					}
+				}
+				c.Count("twin_step_mirrored_by_row_changes")
+			} else {
+				r2 := w.s.Query(strings.ReplaceAll(st.SQL, "%T", "u"))
+				if r2.Err != nil {
+					addFail("twin-statement-outcome-differs", fmt.Sprintf("step %d %q succeeded on t but on the index-free twin: %v", si, q, r2.Err))
+				}
 			}
 		}
 		var lks []string
@@ -1110,7 +1137,8 @@ func run(c *lib.Ctx, cs caseT) {
 				ru := w.s.Query("SELECT * FROM u")
 				c.PredChecked()
 				if !eqBag(bagOf(ru.Rows), bagOf(scan)) {
-					addFail("indexed-table-differs-from-index-free-twin", fmt.Sprintf("after step %d %q: t holds %v, the twin %v", si, q, bagOf(scan), bagOf(ru.Rows)))
+					// a DML statement that located its rows through a broken index (known root causes) changes other rows than on the twin
+					addFail(classify("indexed-table-differs-from-index-free-twin", "", ""), fmt.Sprintf("after step %d %q: t holds %v, the twin %v", si, q, bagOf(scan), bagOf(ru.Rows)))
 				}
 			}
 		}
